@@ -16,7 +16,11 @@ let eval (prev : state) (op : op) (r : result) (next : state) : (string * bool) 
     ((if retained_head then "cap" else "qos"), BackendSpec.qos_ok prev op r next);
     ("resub", BackendSpec.resub_ok prev op r next);
     ("unsub", BackendSpec.unsub_ok prev op r next);
-    ("retained", BackendSpec.retained_ok prev op r next && BackendSpec.retained_wf next);
+    (* the retained map follows the accepted publishes; a closing connection's publish (its will) is never refused,
+       so a retained will is always stored *)
+    ("retained", BackendSpec.retained_ok prev op r next && BackendSpec.retained_wf next &&
+                 BackendSpec.closing_accepted_ok prev op r next);
+    ("closing_accepted", BackendSpec.closing_accepted_ok prev op r next);
     ("replay", BackendSpec.replay_ok prev op r next);
     (* delivery log, judged on this step alone: queued messages stay until dequeued, whatever Subscribe/Unsubscribe do *)
     ("delivery", BackendLog.delivery_ok prev op r next);
